@@ -285,6 +285,9 @@ type Automaton struct {
 	Init int
 	Node func(state int, n ast.Node) int
 	Edge func(state int, facts []Fact) (int, bool)
+	// Block (optional) is called when a block is entered, before its nodes (loop heads and bodies are recognised by
+	// Block.Kind and Block.Stmt); a negative value kills the path.
+	Block func(state int, b *cfg.Block) int
 }
 
 // StateSet is a set of automaton states (0..255).
@@ -332,6 +335,11 @@ func (f *Flow) Run(a *Automaton) map[*cfg.Block]*StateSet {
 		var outStates []int
 		in[b].each(func(s int) {
 			cur := s
+			if a.Block != nil {
+				if cur = a.Block(cur, b); cur < 0 {
+					return
+				}
+			}
 			for _, n := range b.Nodes {
 				if r, ok := n.(*ast.ReturnStmt); ok && f.Inlined[r] {
 					// the end of a spliced-in helper, not of the analysed function: only its expressions are evaluated
